@@ -19,7 +19,8 @@ CHECKS = {
         text='String2Key.derive_key is symbolically executed from the real source for each of the 3 specifiers x 7 hashes x 3 key sizes '
              '(configuration read from the enum tables in the AST) with salt, passphrase and coded count symbolic: number of contexts, '
              'i zero octets preloaded in context i, stream length max(count, L), stream octet j = material[j mod L] (lowered, nonlinear), '
-             'key = truncated digest concatenation, no exception (ZeroDivisionError). The 256-value coded-count decoder is proved too.',
+             'key = truncated digest concatenation, no exception (ZeroDivisionError); a second derivation on the same object after re-salting '
+             'depends on the new salt only (no hidden state). The 256-value coded-count decoder is proved too.',
         note=TB + '; hashlib is an uninterpreted external with the incremental-update law only',
         technique='contract-based deductive verification: VCs from the Python AST against RFC 4880 3.7.1, z3/cvc5; runtime-contract sweep '
                   'against an independent hashlib implementation as bounded complement',
@@ -29,7 +30,9 @@ CHECKS = {
         text='causes_signature_verify_to_fail is proved equal to the mask test over all 2^11 issue sets; SignatureVerification.__bool__/'
              'good/bad/__len__ proved coherent for 0..3 fully symbolic entries; the verdict block of PGPKey.verify (detached signature) is '
              'executed with callee contracts as hooks: exactly one entry per examined pair, disqualifying issues kept, otherwise the '
-             'cryptographic check is called and decides, delegation only to the named subkey.',
+             'cryptographic check is called and decides, delegation only to the named subkey; check_management / check_soundness / '
+             'check_primitives and validate_params: an expired, invalid, disabled or self-signature-less key always reports that condition, '
+             'advisory weaknesses only add bits.',
         note=TB + '; the aggregate methods are element-wise filters proved for list lengths 0..3, not by induction',
         technique='contract-based deductive verification: VCs from the Python AST, callee contracts as hooks, z3/cvc5',
         design_ref='6 (C17)'),
@@ -38,8 +41,9 @@ CHECKS = {
         text='PGPSignature.hashdata is executed from the real source for every signature type x subject class (30 scenarios, subject / key '
              'body / uid body / hashed area symbolic) and proved equal to the RFC 4880 5.2.4 layout; injectivity of that layout is proved by '
              'peeling lemmas; the per-algorithm verify glue (RSA/DSA/ECDSA/EdDSA: what reaches the external verifier, verdict mapping), '
-             'PubKeyV4.verify and the verdict block of PGPKey.verify are proved with callee contracts. The property follows under the named '
-             'cryptographic hypothesis (EUF-CMA, collision resistance), which is not proved.',
+             'PubKeyV4.verify and the verdict block of PGPKey.verify are proved with callee contracts; signature collection for message, user id '
+             'and key subjects: examined iff issued by this key or a subkey, once each, with its own subject, never an empty (truthy) result. '
+             'The property follows under the named cryptographic hypothesis (EUF-CMA, collision resistance), which is not proved.',
         note=TB + '; cryptography/hashlib are uninterpreted externals; a bounded native bit-flip/substitution complement is listed under bounded_components',
         technique='contract-based deductive verification: VCs from the Python AST against RFC 4880 5.2.4 spec terms, callee contracts as hooks, '
                   'z3/cvc5; bounded native mutation complement',
@@ -49,7 +53,9 @@ CHECKS = {
         text='SubPackets.parse is verified with two loop invariants (buffer is a suffix of the received octets; variant) against the callee '
              'contract of the subpacket dispatcher: on every normal return the kept hashed area equals the received octets [0, 2+hl) and the '
              'subpackets tiled it exactly; __hashbytearray__ returns it verbatim, __copy__ preserves it, adding a hashed subpacket drops it; the '
-             'trailer block of hashdata (C01 scenarios) hashes exactly those octets; injectivity lemma gives bit-flip sensitivity.',
+             'trailer block of hashdata (C01 scenarios) hashes exactly those octets; injectivity lemma gives bit-flip sensitivity; the parsers of '
+             'the text-bearing subpackets (notation, URIs, regular expression, signer id, revocation reason) accept every octet string and consume '
+             'exactly the stated body.',
         note=TB + '; dispatcher contract (consumes >= 1 octet in place or raises) is assumed here',
         technique='contract-based deductive verification with inductive loop invariants; z3/cvc5',
         design_ref='6 (C05)'),
@@ -89,8 +95,11 @@ CHECKS = {
         text='The signing glue is verified from the real source: PGPKey.sign picks the signature type (binary / canonical text for cleartext / '
              'timestamp), passes the signing component algorithm and key id as issuer; PGPKey._sign adds the issuer fingerprint (hashed) before '
              'hashing, signs exactly hashdata(subject), stores the left 16 bits of the digest of that data, installs the signer output, then '
-             'updates the header length; hashdata == RFC 4880 5.2.4 for all types (shared with C01); per-algorithm verify glue. The subpacket '
-             'serialisers, every signing option and both directions against the independent RFC implementation are a bounded component.',
+             'updates the header length; every signing option lands in a hashed subpacket of its type; certify / revoke / bind choose type, hashed '
+             'subpackets and (for signing subkeys) the embedded cross-signature per RFC 4880 5.2.1 / 5.2.3; value layouts of the subpackets written '
+             '(times, expirations, issuer, fingerprint, booleans, preference lists by loop contract, flag octets, notations, text); hashdata == RFC '
+             '4880 5.2.4 for all types (shared with C01); per-algorithm verify glue. Both directions against the independent RFC implementation over '
+             'all options and algorithms are a bounded component.',
         note=TB,
         technique='contract-based deductive verification of the glue; bounded differential component against an independent RFC 4880 implementation',
         design_ref='6 (C02)'),
@@ -99,9 +108,11 @@ CHECKS = {
         text='Deductive: PKESK plaintext m = alg || key || 16-bit sum (RSA: PKCS#1 v1.5 under the recipient key; ECDH: to the recipient packet), '
              'SKESK encrypts alg || session key under the S2K key with a fresh salt, SEIPD plaintext = prefix || repeat || data || MDC(SHA-1(...D3 14)), '
              'symenc: zero IV of block size when none given, insecure/unsupported ciphers refused, CFB object keyed as given; PGPKey.encrypt names its own '
-             'key id / algorithm and encrypts the whole message bytes; decrypt selection. Inverse-pair behaviour of the cryptographic externals and the '
-             'round trip against an independent RFC 4880/6637 implementation are a bounded component.',
-        note=TB + '; ECDH (RFC 6637) session-key wrapping is bounded only',
+             'key id / algorithm and encrypts the whole message bytes; decrypt selection; ECDH (RFC 6637 7-8): encrypt/decrypt wiring (fresh ephemeral '
+             'key, exchange, KDF parameters, wrap over the 8-octet padded m) and the KDF Param block / hash / KEK length; the S2K derivation the '
+             'passphrase paths rest on (C12 scenarios). Inverse-pair behaviour of the cryptographic externals and the round trip against an '
+             'independent RFC 4880/6637 implementation (incl. non-default KDF parameters) are a bounded component.',
+        note=TB + '; the cryptographic externals (ciphers, RSA, ECDH exchange, key wrap, KDF) are uninterpreted',
         technique='contract-based deductive verification of layouts and glue with uninterpreted cryptographic externals; bounded differential component',
         design_ref='6 (C03)'),
     'C04': dict(
@@ -127,7 +138,8 @@ CHECKS = {
     'C08': dict(
         category='proof',
         text='Proved: packet header and length codecs in both directions, subpacket header, MPI, hashed-area verbatim, public-key body, one-pass packet '
-             'layout, boolean subpacket parse/value, S2K count. The dispatcher (metaclass registry), EC material, user attributes and the breadth of '
+             'layout, boolean subpacket parse/value, S2K count and specifier codec, literal data (format octet over all 256 values), signature packet '
+             'fields at their offsets, simple-body packets, subpacket value codecs, ECPoint.from_values. The dispatcher (metaclass registry), EC material, user attributes and the breadth of '
              'packet classes (own output byte-exact; foreign input normalises once) are a bounded component over fixtures and generated packets.',
         note=TB + '; this property is only partly within reach: most packet classes are covered by the bounded component, not by obligations',
         technique='contract-based deductive verification of the codec core; bounded component for the packet-class breadth',
@@ -137,8 +149,9 @@ CHECKS = {
         text='CRC-24: the real loop body is translated to 64-bit bit-vectors and proved to keep the state below 2^24, never to exceed 2^40 (so the model '
              'equals unbounded Python ints) and to be the GF(2) remainder of state*x^8 + octet*x^24 modulo 0x1864CFB; initial value and 24-bit result; the '
              'armor writer layout (label, header lines, payload lines of at most 64 characters concatenating to the base64 text, =CRC over the binary '
-             'export, matching END line) for payloads of one and two lines. The reader (regular expression) is a bounded component.',
-        note=TB + '; armor writer proved for 1-2 payload lines (symbolic content), reader bounded',
+             'export, matching END line) for payloads of one and two lines; the reader after the block grammar: body = base64-decode, checksum = the '
+             'stated number, "Incorrect crc24" warned iff it differs from the CRC of the decoded body. The block grammar (regular expression) is a bounded component.',
+        note=TB + '; armor writer proved for 1-2 payload lines (symbolic content); the regular expression of the reader is bounded',
         technique='contract-based deductive verification (bit-vector VCs from the AST of the crc24 loop; sequence VCs for the writer); bounded reader component',
         design_ref='6 (C10)'),
     'C11': dict(
@@ -171,7 +184,8 @@ CHECKS = {
         category='exploration',
         text='Bounded stand-in: every operation sequence up to length 3 (4 thorough) over 15 key-management operations plus seeded walks, checking the '
              'runtime invariant well_formed(key) after each step with PGPy and the independent verifier. Deductive pointwise clauses: PGPUID.selfsig is the '
-             'last self-issued signature in (stable, sorted) storage order; subkey flags from the most recent binding; unlock frame.',
+             'last self-issued signature in (stable, sorted) storage order; get_uid / del_uid select by equality and remove exactly that identity; '
+             'subkey flags from the most recent binding; unlock frame.',
         note='whole-history property with cryptography in the loop: decided only over the enumerated histories',
         technique='bounded stand-in for contract-based verification (runtime invariant over enumerated histories); deductive pointwise clauses',
         design_ref='6 (C15)'),
@@ -180,16 +194,22 @@ CHECKS = {
         text='KeyAction.usage (context manager) yields the first component, in the order primary then subkeys, whose flags meet the required set, or '
              'refuses with PGPError when none does and enforcement is on; capability is judged for the requested identity; check_attributes refuses '
              'exactly when a condition fails; _get_key_flags: subkey flags of the most recent binding signature, primary Certify + identity self-signature; '
-             'verify delegates only to the named subkey; sign/encrypt name the component that acts (C02/C03 scenarios). Flag-assignment product: bounded component.',
+             'the KeyAction wrapper (no key material -> refusal; the no-identity gate exempts only the first self-certification; conditions checked on '
+             'the key and on the chosen component before the action runs); verify delegates only to the named subkey; sign/encrypt name the component '
+             'that acts and decrypt picks the packet naming its id and algorithm (C02/C03/C04 scenarios). Flag-assignment product: bounded component.',
         note=TB + '; component list unrolled for primary + 2 subkeys',
         technique='contract-based deductive verification with symbolic flag sets; bounded enumeration of flag assignments',
         design_ref='6 (C16)'),
     'C19': dict(
         category='exploration',
-        text='Bounded stand-in only: the class invariant of the keyring index is checked after every step of every load/unload history of length <= 5 '
-             '(6 thorough) over a universe of five keys (shared names, public+private halves, subkeys), plus seeded walks.',
-        note='the layered alias index needs quantified array-of-map invariants that the VC generator does not offer; nothing is proved',
-        technique='bounded stand-in for contract-based verification: runtime class invariant over exhaustively enumerated histories',
+        text='Bounded stand-ins for the index: (1) the class invariant is checked after every step of every load/unload history of length <= 5 '
+             '(6 thorough) over a universe of five keys (shared names, public+private halves, subkeys), plus seeded walks; (2) the invariant is checked '
+             'to be inductive: load/unload from every invariant-satisfying state of a bounded shape re-establishes it (history length unbounded, shape '
+             'bounded). Deductive: the selection functions _get_key / _get_keys / key() over abstract alias layers (first layer that has the identifier '
+             'decides, exact form before the space-free form; a signature selects by its issuer id, a message by its first loaded issuer).',
+        note='the layered alias index needs quantified array-of-map invariants that the VC generator does not offer; only the selection functions are proved',
+        technique='bounded stand-in for contract-based verification: runtime class invariant over enumerated histories and as an induction step over '
+                  'a bounded state shape; contract-based deductive verification of the selection functions',
         design_ref='6 (C19)'),
 }
 
